@@ -2,11 +2,11 @@ SPECIFICATION SpecP
 VIEW view
 CONSTANTS
   OffsMod = 65536
-  Kind = "nameaddr"
-  Atoms <- AtomsPoss2
+  Kind = "pais"
+  Atoms <- AtomsListS
   Prefix <- PfxNone
-  MaxLen = 4
-  Cfgs <- CfgsNA18
+  MaxLen = 7
+  Cfgs <- CfgsPAIs
   Junk = 34
   EmitOn = TRUE
 INVARIANTS ResumeEqFresh Stable OffsSane Emit
